@@ -132,6 +132,39 @@ def absentOk : VL → Bool
   | .cons .none vs => allNone vs
   | .cons v vs => presentV v && absentOk vs
 
+/-- the words `encode` returns for the object decoded from `inp` (`none` inside: a word that
+contains padding bytes) -/
+def encodedWords (ms : ML) (inp : List Int) : Option (List (Option Int)) :=
+  match decodeObjMembers ms inp with
+  | .ok v _ =>
+    match encodeObj ms v with
+    | .ok ws => some ws
+    | _ => none
+  | _ => none
+
+/-- no `bool` field (the Rust field types are all 4 bytes wide) -/
+def noBoolM : MT → Bool
+  | .boolean => false
+  | .array _ t => noBoolM t
+  | _ => true
+
+def noBool : ML → Bool
+  | .nil => true
+  | .cons t ms => noBoolM t && noBool ms
+
+/-- identifiers `encode_id` accepts and `decode_id` gives back -/
+def idOk : Ident → Bool
+  | .ordinal i => decide (0 < i) && decide (i < 2 ^ 30)
+  | .uuid u => decide (u.length = 16)
+
+/-- identifiers are ones `encode_id` accepts, and the dispatch on an identifier finds exactly the
+description that carries it -/
+def idsOk (p : ProtoSpec) : Bool :=
+  p.system.all (fun s => idOk s.id && decide (findSpec s.id p.system = some s)) &&
+  p.game.all (fun s => idOk s.id && decide (findSpec s.id p.game = some s)) &&
+  p.connless.all (fun s => decide (s.id.length = 8) && decide (findConnless s.id p.connless = some s)) &&
+  p.objects.all (fun s => decide (findSpec s.id p.objects = some s) && !s.members.isNil)
+
 /-- Every message / object description of a protocol is one the generator can emit. -/
 def wfProto (p : ProtoSpec) : Bool :=
   p.system.all (fun s => wfMs s.members) && p.game.all (fun s => wfMs s.members) &&
